@@ -18,7 +18,7 @@ for v in clean patched; do
     # a Go test demo: seeded/<dir>/demo_dir names the package directory it belongs in (default lib)
     dd=lib; [ -f "$sd/demo_dir" ] && dd="$(cat "$sd/demo_dir")"
     cp "$sd/demo_test.go" "$wt/$dd/zz_demo_test.go"
-    ( cd "$wt" && timeout 900 go test -ldflags=-checklinkname=0 -vet=off -count=1 -run 'Test(Demo)?C[0-9][0-9]' "./$dd/" 2>&1 | grep -E "^(--- |ok|FAIL|PASS)" | sed -E 's/[0-9.]+s//g' > "/tmp/confirm-$d-$v.out"; echo "exit=${PIPESTATUS[0]}" >> "/tmp/confirm-$d-$v.out" )
+    ( cd "$wt" && timeout 900 go test -ldflags=-checklinkname=0 -vet=off -count=1 -run "^($(grep -o 'func Test[A-Za-z0-9_]*' "$sd/demo_test.go" | sed 's/func //' | paste -sd'|'))\$" "./$dd/" 2>&1 | grep -E "^(--- |ok|FAIL|PASS)" | sed -E 's/[0-9.]+s//g' > "/tmp/confirm-$d-$v.out"; echo "exit=${PIPESTATUS[0]}" >> "/tmp/confirm-$d-$v.out" )
   fi
   git -C /repo worktree remove --force "$wt"
   rm -f "/tmp/confirm-$d-$v.bin"
